@@ -4,39 +4,44 @@ From Coq Require Import List ZArith NArith Bool.
 From OgRek Require Import Base Float Value PyEq Dict PyEqFacts DictFacts.
 Import ListNotations.
 
-(* FULL STATEMENT (the property): for all hashable keys a b,
-     go_equal a b = py_eq a b,   go_equal a b = true -> equal hash input,
-   and a Dict holding a finds it under b iff py_eq.
-   PROVED BELOW for the keys whose numeric components are integers of any Go integer type
-   or *big.Int, bool, the three string kinds, Tuples, None, Class, Call, Ref (predicate
-   nf_key).  Keys with float32/float64/complex components are NOT covered by these theorems
-   yet: for them the property is decided by the correspondence run only (boundary lattice of
-   about 10^5 ordered pairs against the model and against CPython's ==).  Hence _partial. *)
+(* The property, in full: for all hashable keys a b (nf_key: well-formed values of every hashable
+   type - bool, every Go integer type, *big.Int, float64 / float32 widened, complex, the three string
+   kinds, Tuples, None, Class, Call, Ref, application objects; floats as 64-bit patterns incl. NaN,
+   +-Inf, +-0, subnormals),
+     go_equal a b = py_eq a b   (Python's ==: numbers by exact mathematical value, str <> bytes,
+                                  a Python-2 str equal to both, tuples element-wise),
+     go_equal a b = true -> both feed the same bytes to maphash (any seed, any hash function),
+   and a Dict holding a finds it under b iff py_eq, for every slot order (seed independence).
+   The numeric part rests on Proofs/FloatFacts.v: IEEE == on bit patterns is equality of the exact
+   values m * 2^e; an integer equals a float iff the float is integral with that value; big.Int's
+   exact conversion (log2 / trailing-zero test, fraction field) yields the float of the same value
+   or fails exactly when no float has it; hash_Float maps equal numbers to equal bytes. *)
 
-Theorem C07_equal_is_py_eq_partial :
+Theorem C07_equal_is_py_eq :
   forall a b, nf_key a = true -> nf_key b = true -> go_equal a b = py_eq a b.
 Proof. exact go_equal_py_eq_nf. Qed.
-Print Assumptions C07_equal_is_py_eq_partial.
+Print Assumptions C07_equal_is_py_eq.
 
 (* equal keys feed identical input to maphash, for every seed and every hash function *)
-Theorem C07_hash_respects_equal_partial :
+Theorem C07_hash_respects_equal :
   forall a b, nf_key a = true -> nf_key b = true -> go_equal a b = true -> hash_same a b = true.
 Proof.
   intros a b Ha Hb E. apply hash_agree_same. apply hash_respects_equal_nf; assumption.
 Qed.
-Print Assumptions C07_hash_respects_equal_partial.
+Print Assumptions C07_hash_respects_equal.
 
 (* seed / slot-order independence: the chooser ch is universally quantified *)
-Theorem C07_lookup_partial :
+Theorem C07_lookup :
   forall ch a b v, nf_key a = true -> nf_key b = true ->
   exists es, dict_set ch a v [] = Some es /\
              dict_get ch b es = Some (if py_eq b a then Some v else None).
 Proof. exact lookup_follows_py_eq. Qed.
-Print Assumptions C07_lookup_partial.
+Print Assumptions C07_lookup.
 
 (* non-vacuity and the documented equalities, by computation *)
 Example C07_examples :
   nf_key (VTuple [VInt 1; VBStr (bs "a")]) = true /\
+  nf_key (VTuple [VFloat 4607182418800017408%N; VComplex 0%N 9223372036854775808%N]) = true /\   (* (1.0, complex(0,-0.0)) *)
   py_eq (VInt 1) (VBig 0%N 1) = true /\ py_eq (VBool true) (VUint 1) = true /\
   py_eq (VStr (bs "a")) (VBytes (bs "a")) = false /\
   py_eq (VBStr (bs "a")) (VStr (bs "a")) = true /\ py_eq (VBStr (bs "a")) (VBytes (bs "a")) = true /\
